@@ -58,8 +58,10 @@ type c08Case struct {
 	Binder   string     `json:"binder,omitempty"` // vb: "" / query = QueryParamsBinder, form = FormFieldBinder (POST body), path = PathParamsBinder
 	FailFast bool       `json:"failfast,omitempty"`
 	Ops      []c08Op    `json:"ops,omitempty"`
-	Source   string     `json:"source,omitempty"` // struct: query | bind-get | form | multipart | header | param
+	Source   string     `json:"source,omitempty"` // struct: query | bind-get | form | multipart | header | param | param+query
 	Fields   []c08Field `json:"fields,omitempty"`
+	Fields2  []c08Field `json:"fields2,omitempty"` // param+query: the query string (Fields = path params), bound by c.Bind
+	Prepop   bool       `json:"prepop,omitempty"`  // struct: destination pre-populated with non-zero sentinels
 }
 
 // ---------- destination types of the harness ----------
@@ -968,6 +970,51 @@ func c08StructDefault(fam int, s string) string {
 	return s
 }
 
+// c08Prepopulate sets every catalogue field to a non-zero sentinel: true, 7, 1.5, "init",
+// non-nil pointers, one-element slices
+func c08Prepopulate(v reflect.Value) {
+	var set func(x reflect.Value)
+	set = func(x reflect.Value) {
+		switch x.Type() {
+		case c08UnmT:
+			x.Set(reflect.ValueOf(c08Unm{V: "init"}))
+			return
+		case c08TextT:
+			x.Set(reflect.ValueOf(c08Text{V: "init"}))
+			return
+		}
+		switch x.Kind() {
+		case reflect.Ptr:
+			x.Set(reflect.New(x.Type().Elem()))
+			set(x.Elem())
+		case reflect.Slice:
+			sl := reflect.MakeSlice(x.Type(), 1, 1)
+			set(sl.Index(0))
+			x.Set(sl)
+		case reflect.Bool:
+			x.SetBool(true)
+		case reflect.Int, reflect.Int8, reflect.Int16, reflect.Int32, reflect.Int64:
+			x.SetInt(7)
+		case reflect.Uint, reflect.Uint8, reflect.Uint16, reflect.Uint32, reflect.Uint64:
+			x.SetUint(7)
+		case reflect.Float32, reflect.Float64:
+			x.SetFloat(1.5)
+		case reflect.String:
+			x.SetString("init")
+		}
+	}
+	for i := 0; i < v.NumField(); i++ {
+		set(v.Field(i))
+	}
+}
+
+func c08OptStrs(vals []string, ok bool) string {
+	if !ok {
+		return "0"
+	}
+	return "1 " + wStrs(vals)
+}
+
 func c08RunStruct(c *c08Case) (res Result) {
 	catT, infos := c08Catalogue()
 	var tags []string
@@ -977,21 +1024,31 @@ func c08RunStruct(c *c08Case) (res Result) {
 			oracle = fmt.Sprintf(format, a...)
 		}
 	}
-	// merge the case's fields by name, keep catalogue order
-	data := map[string][]string{}
-	for _, f := range c.Fields {
-		if _, ok := c08CatByN[f.Name]; !ok || len(f.Values) == 0 {
-			continue
+	twoPass := c.Source == "param+query"
+	collect := func(fields []c08Field, single bool) map[string][]string {
+		data := map[string][]string{}
+		for _, f := range fields {
+			if _, ok := c08CatByN[f.Name]; !ok || len(f.Values) == 0 {
+				continue
+			}
+			if single {
+				data[f.Name] = f.Values[:1]
+			} else {
+				data[f.Name] = append(data[f.Name], f.Values...)
+			}
 		}
-		if c.Source == "param" {
-			data[f.Name] = f.Values[:1]
-		} else {
-			data[f.Name] = append(data[f.Name], f.Values...)
-		}
+		return data
+	}
+	data := collect(c.Fields, c.Source == "param" || twoPass)
+	data2 := map[string][]string{}
+	if twoPass {
+		data2 = collect(c.Fields2, false)
 	}
 	var present []c08FieldInfo
 	for _, info := range infos {
-		if _, ok := data[info.Name]; ok {
+		_, ok1 := data[info.Name]
+		_, ok2 := data2[info.Name]
+		if ok1 || ok2 {
 			present = append(present, info)
 		}
 	}
@@ -1023,20 +1080,39 @@ func c08RunStruct(c *c08Case) (res Result) {
 		}
 	case "param":
 		req = httptest.NewRequest(http.MethodGet, "/", nil)
+	case "param+query":
+		req = httptest.NewRequest(http.MethodGet, "/?"+url.Values(data2).Encode(), nil)
 	default: // query, bind-get
 		req = httptest.NewRequest(http.MethodGet, "/?"+uv.Encode(), nil)
 	}
 	ctx := e.NewContext(req, httptest.NewRecorder())
-	if c.Source == "param" {
+	if c.Source == "param" || twoPass {
 		var names, values []string
 		for _, info := range present {
-			names = append(names, info.Name)
-			values = append(values, data[info.Name][0])
+			if v, ok := data[info.Name]; ok {
+				names = append(names, info.Name)
+				values = append(values, v[0])
+			}
 		}
 		ctx.SetParamNames(names...)
 		ctx.SetParamValues(values...)
 	}
 	dst := reflect.New(catT)
+	if c.Prepop {
+		c08Prepopulate(dst.Elem())
+		tags = append(tags, "prepopulated")
+	}
+	// snapshot of the whole destination before binding
+	type snap struct {
+		wire  string
+		vals  []string
+		state string
+	}
+	before := make([]snap, len(infos))
+	for i, info := range infos {
+		w, v, st := c08FVal(info, dst.Elem().Field(info.Idx))
+		before[i] = snap{w, v, st}
+	}
 	var err error
 	panicked := ""
 	func() {
@@ -1053,7 +1129,7 @@ func c08RunStruct(c *c08Case) (res Result) {
 			err = bd.BindHeaders(ctx, dst.Interface())
 		case "param":
 			err = bd.BindPathParams(ctx, dst.Interface())
-		default: // bind-get, form, multipart
+		default: // bind-get, form, multipart, param+query
 			err = ctx.Bind(dst.Interface())
 		}
 	}()
@@ -1061,10 +1137,22 @@ func c08RunStruct(c *c08Case) (res Result) {
 	tbl := &c08Table{}
 	tbl.add(32, "0.0")
 	tbl.add(64, "0.0")
-	ops := []string{"1", wInt(len(present))}
+	kind := "1"
+	if twoPass {
+		kind = "2"
+	}
+	ops := []string{kind, wInt(len(present))}
 	for _, info := range present {
-		ops = append(ops, wInt(info.Wrap), wInt(info.Fam), wInt(info.Ty), wStrs(data[info.Name]))
-		for _, v := range data[info.Name] {
+		v1, ok1 := data[info.Name]
+		ops = append(ops, wInt(info.Wrap), wInt(info.Fam), wInt(info.Ty), before[info.Idx].wire, c08OptStrs(v1, ok1))
+		if twoPass {
+			v2, ok2 := data2[info.Name]
+			ops = append(ops, c08OptStrs(v2, ok2))
+			for _, v := range v2 {
+				tbl.addFor(info.Fam, info.E, c08StructDefault(info.Fam, v))
+			}
+		}
+		for _, v := range v1 {
 			tbl.addFor(info.Fam, info.E, c08StructDefault(info.Fam, v))
 		}
 		tags = append(tags, fmt.Sprintf("field:w%d-f%d-t%d", info.Wrap, info.Fam, info.Ty))
@@ -1088,44 +1176,82 @@ func c08RunStruct(c *c08Case) (res Result) {
 	obs := []string{status, wInt(len(present))}
 	nontrivial := false
 	anyBad := false
+	isPresent := map[string]bool{}
 	for _, info := range present {
+		isPresent[info.Name] = true
 		w, vals, state := c08FVal(info, dst.Elem().Field(info.Idx))
 		obs = append(obs, w)
-		// oracle
-		want := data[info.Name]
-		if info.Wrap < 2 {
-			want = want[:1]
-		}
-		var dens []string
-		allOK := true
-		for _, s := range want {
-			if c08Interesting(s) {
-				nontrivial = true
-			}
-			d, ok := c08Denote(info.Fam, info.E, c08StructDefault(info.Fam, s))
+		init := before[info.Idx]
+		// what each source's text(s) denote for this field
+		var lastDens []string
+		var allDens [][]string
+		fieldBad := false
+		for pass, d := range []map[string][]string{data, data2} {
+			want, ok := d[info.Name]
 			if !ok {
-				allOK = false
+				continue
 			}
-			dens = append(dens, d)
+			if info.Wrap < 2 {
+				want = want[:1]
+			}
+			var dens []string
+			for _, s := range want {
+				if c08Interesting(s) {
+					nontrivial = true
+				}
+				if s == "" && c.Prepop {
+					nontrivial = true
+					tags = append(tags, "empty-over-prepopulated")
+				}
+				dn, ok := c08Denote(info.Fam, info.E, c08StructDefault(info.Fam, s))
+				if !ok {
+					fieldBad = true
+				}
+				dens = append(dens, dn)
+			}
+			_ = pass
+			lastDens = dens
+			allDens = append(allDens, dens)
 		}
-		if !allOK {
+		if fieldBad {
 			anyBad = true
 			if err == nil {
-				fail("field %s: %q does not denote a value of its type but Bind returned no error (holds %v)", info.Name, want, vals)
+				fail("field %s: a text in %v / %v does not denote a value of its type but Bind returned no error (holds %v)", info.Name, data[info.Name], data2[info.Name], vals)
 			}
 			continue
 		}
 		if err == nil {
-			if state == "nil" || state == "ptrnil" || !c08Same(vals, false, dens, false) {
-				fail("field %s: %q denotes %v but the field holds %v (%s)", info.Name, want, dens, vals, state)
+			if state == "nil" || state == "ptrnil" || !c08Same(vals, false, lastDens, false) {
+				fail("field %s (held %v before): the last source carrying its key denotes %v but the field holds %v (%s)", info.Name, init.vals, lastDens, vals, state)
 			}
-		} else if state == "one" || state == "many" {
-			// bound before the failing field, or untouched: must be exact or still zero
-			zero := info.Wrap == 0 && len(vals) == 1 && vals[0] == c08ZeroCanon(info.Fam)
-			ptrZero := info.Wrap == 1 && len(vals) == 1 && vals[0] == c08ZeroCanon(info.Fam)
-			if !zero && !ptrZero && !c08Same(vals, false, dens, false) {
-				fail("field %s: %q denotes %v but the field holds %v after a failed Bind", info.Name, want, dens, vals)
+			continue
+		}
+		// failed Bind: the field is as before, or already bound by one of the sources, or a
+		// freshly allocated pointer
+		okState := state == init.state && c08Same(vals, false, init.vals, false)
+		for _, dens := range allDens {
+			if (state == "one" || state == "many") && c08Same(vals, false, dens, false) {
+				okState = true
 			}
+		}
+		if info.Wrap == 1 && init.state == "nil" && state == "one" && vals[0] == c08ZeroCanon(info.Fam) {
+			okState = true
+		}
+		if info.Wrap == 4 && init.state == "nil" && state == "ptrnil" {
+			okState = true
+		}
+		if !okState {
+			fail("field %s: held %v (%s) before, texts denote %v, holds %v (%s) after a failed Bind", info.Name, init.vals, init.state, allDens, vals, state)
+		}
+	}
+	// fields for which no source carries a key are never touched
+	for _, info := range infos {
+		if isPresent[info.Name] {
+			continue
+		}
+		_, vals, state := c08FVal(info, dst.Elem().Field(info.Idx))
+		if state != before[info.Idx].state || !c08Same(vals, false, before[info.Idx].vals, false) {
+			fail("field %s changed from %v to %v although no source carries its key", info.Name, before[info.Idx].vals, vals)
 		}
 	}
 	if err != nil && !anyBad {
